@@ -2,7 +2,7 @@
     the family number; the verdict says whether the implementation's observed
     behaviour equals the model's. *)
 From Coq Require Import List ZArith Bool.
-From FF Require Import Sx Dispatch TaskTree StoreModel StoreCheck PreCheck EngineMon TaskRun ShareData Vars.
+From FF Require Import Sx Dispatch TaskTree StoreModel StoreCheck PreCheck EngineMon TaskRun ShareData Vars KeeperCheck.
 Import ListNotations.
 Local Open Scope Z_scope.
 
@@ -14,11 +14,14 @@ Definition run_monitor (family : Z) (c : sx) : option bool :=
   | 40 => monitor_precheck c
   | 41 => monitor_sharedata c
   | 50 => monitor_vars c
+  | 60 => monitor_keeper c
+  | 61 => monitor_alive c
   | _ => if (100 <? family) && (family <? 200) then monitor_journal (family - 100) c else None
   end.
 
 Definition run_explain (family : Z) (c : sx) : sx :=
-  if (100 <? family) && (family <? 200) then explain_journal (family - 100) c else L [].
+  if (100 <? family) && (family <? 200) then explain_journal (family - 100) c
+  else if family =? 60 then explain_keeper c else if family =? 61 then explain_alive c else L [].
 
 Definition run_case (family : Z) (c : sx) : verdict :=
   match family with
@@ -33,6 +36,8 @@ Definition run_case (family : Z) (c : sx) : verdict :=
   | 40 => check_precheck c
   | 41 => check_sharedata c
   | 50 => check_vars c
+  | 60 => check_keeper c
+  | 61 => check_keeper c
   | _ => if (100 <? family) && (family <? 200)
          then match check_journal_store c with OkCase => check_runs c | v => v end
          else BadCase 0
